@@ -11,11 +11,13 @@ CInit == /\ Waiters = {"w1", "w2", "w3", "w4", "w5", "w6", "w7", "w8"}
          /\ Codes = {11, 35, 40}
          /\ TableSize = 40 /\ WaitCode = 35 /\ Vias = {TRUE, FALSE}
          /\ MaxReq = 1000000 /\ MaxBatch = 2 /\ Hist = FALSE /\ SplitReg = TRUE
+         /\ Deliveries = {"single", "pipelined", "fragmented"}
 
 CInitAtomic == /\ Waiters = {"w1", "w2", "w3", "w4", "w5", "w6", "w7", "w8"}
                /\ Codes = {11, 35, 40}
                /\ TableSize = 40 /\ WaitCode = 35 /\ Vias = {TRUE, FALSE}
                /\ MaxReq = 1000000 /\ MaxBatch = 2 /\ Hist = FALSE /\ SplitReg = FALSE
+               /\ Deliveries = {"single", "pipelined", "fragmented"}
 
 \* the inductive invariant, typing part in assignment form
 IndInv == /\ via \in BOOLEAN
@@ -28,7 +30,7 @@ IndInv == /\ via \in BOOLEAN
           /\ parkedAt = [w \in Waiters |-> 0]
           /\ nreq \in 0 .. MaxReq
           /\ last \in [op : {"init", "call", "park", "reg", "race", "request", "return"}, ws : SUBSET Waiters,
-                       cs : SUBSET Codes, rel : SUBSET Waiters, n : 0 .. 8, pan : {FALSE}]
+                       cs : SUBSET Codes, dl : {"none", "single", "pipelined", "fragmented"}, rel : SUBSET Waiters, n : 0 .. 8, pan : {FALSE}]
           /\ Partition
 
 StepOK == C20_Step
